@@ -1,15 +1,176 @@
 package rules
 
-// Thorough runs the additional thorough-tier passes of a property and returns
-// extra coverage keys for the evidence file. Filled in by thorough_*.go.
-var thoroughHooks = map[string]func(c *Ctx, repo, verif string) map[string]interface{}{}
+import (
+	"bytes"
+	"fmt"
+	"os"
+	"os/exec"
+	"path/filepath"
+	"sort"
+	"strings"
+	"sync"
 
-func Thorough(c *Ctx, prop, repo, verif string) map[string]interface{} {
-	if h, ok := thoroughHooks[prop]; ok {
-		return h(c, repo, verif)
+	"f2gcheck/internal/report"
+)
+
+// expectedMiss lists witnesses the checks are known not to catch, with the reason (DESIGN §9).
+var expectedMiss = map[string]string{
+	"seeded/C06-a": "targets the steps form, whose range is not decided by design (needs a relational loop invariant)",
+}
+
+type variantResult struct {
+	Name       string   `json:"name"`
+	Status     string   `json:"status"`
+	Violations int      `json:"violations"`
+	Rules      []string `json:"rules,omitempty"`
+	Keys       []string `json:"keys,omitempty"`
+	Note       string   `json:"note,omitempty"`
+}
+
+func runVariant(exe, prop, repo, verif string, args ...string) variantResult {
+	cmd := exec.Command(exe, append([]string{"-prop", prop, "-tier", "quick", "-repo", repo, "-verif", verif}, args...)...)
+	var out bytes.Buffer
+	cmd.Stdout, cmd.Stderr = &out, &out
+	cmd.Run()
+	vr := variantResult{Status: "no-result"}
+	for _, l := range strings.Split(out.String(), "\n") {
+		if !strings.HasPrefix(l, "WITNESS-RESULT ") {
+			continue
+		}
+		for _, f := range strings.Fields(strings.TrimPrefix(l, "WITNESS-RESULT ")) {
+			kv := strings.SplitN(f, "=", 2)
+			if len(kv) != 2 {
+				continue
+			}
+			switch kv[0] {
+			case "status":
+				vr.Status = kv[1]
+			case "violations":
+				fmt.Sscanf(kv[1], "%d", &vr.Violations)
+			case "rules":
+				if kv[1] != "" {
+					vr.Rules = strings.Split(kv[1], ",")
+				}
+			}
+		}
+		if i := strings.Index(l, " keys="); i >= 0 {
+			if ks := l[i+len(" keys="):]; ks != "" {
+				vr.Keys = strings.Split(ks, ";;")
+			}
+		}
 	}
-	if h, ok := thoroughHooks["*"]; ok {
-		return h(c, repo, verif)
+	return vr
+}
+
+// Thorough runs the thorough-tier passes: (1) the same rules under the netgo
+// build tag (the Makefile's build) and under GOARCH=arm64, whose verdicts must
+// equal the default configuration's; (2) an audit under the CHA call graph
+// (a superset of edges; alarms that appear only there are listed, not failed);
+// (3) the witness catalogue: every seeded change and every reverted repair of
+// this property is applied in memory (packages.Config.Overlay) and must raise a
+// violation that is not a known finding. Witness results describe the checker;
+// only (1) can change the verdict on /repo.
+func Thorough(c *Ctx, prop, repo, verif, exe string, res *report.Result, findings []report.Finding) map[string]interface{} {
+	out := map[string]interface{}{}
+	base := res.Summarise(findings)
+	baseKeys := strings.Join(base.Keys, ";;")
+
+	type job struct {
+		name string
+		args []string
+		kind string
 	}
-	return map[string]interface{}{}
+	var jobs []job
+	jobs = append(jobs, job{"tags=netgo", []string{"-tags", "netgo"}, "config"})
+	jobs = append(jobs, job{"GOARCH=arm64", []string{"-goarch", "arm64"}, "config"})
+	jobs = append(jobs, job{"callgraph=CHA", []string{"-cha"}, "cha"})
+	seeds, _ := filepath.Glob(filepath.Join(verif, "seeded", prop+"-*", "patch.diff"))
+	sort.Strings(seeds)
+	for _, s := range seeds {
+		jobs = append(jobs, job{"seeded/" + filepath.Base(filepath.Dir(s)), []string{"-patch", s}, "witness"})
+	}
+	revs, _ := filepath.Glob(filepath.Join(verif, "witness", "revert-"+prop+"-*.patch"))
+	sort.Strings(revs)
+	for _, s := range revs {
+		jobs = append(jobs, job{"witness/" + strings.TrimSuffix(filepath.Base(s), ".patch"), []string{"-patch", s}, "witness"})
+	}
+	results := make([]variantResult, len(jobs))
+	sem := make(chan struct{}, 6)
+	var wg sync.WaitGroup
+	for i, j := range jobs {
+		wg.Add(1)
+		go func(i int, j job) {
+			defer wg.Done()
+			sem <- struct{}{}
+			defer func() { <-sem }()
+			r := runVariant(exe, prop, repo, verif, j.args...)
+			r.Name = j.name
+			results[i] = r
+		}(i, j)
+	}
+	wg.Wait()
+
+	fired, expected, skipped := 0, 0, 0
+	var witnessRes, configRes []variantResult
+	for i, j := range jobs {
+		r := results[i]
+		switch j.kind {
+		case "config":
+			if r.Status != "ok" {
+				r.Note = "variant could not be analysed"
+				res.Undecided("config-variant", j.name, "(whole program)", "-", "the "+j.name+" build configuration could not be loaded/analysed: "+r.Status)
+			} else if strings.Join(r.Keys, ";;") != baseKeys {
+				r.Note = "verdict differs from the default configuration"
+				res.Bad("config-variant", j.name, "(whole program)", "-", "under "+j.name+" the set of unlisted violations differs from the default build configuration: "+strings.Join(r.Keys, ", "))
+			} else {
+				res.Ok("config-variant", j.name, "(whole program)", "-", "same verdict as the default build configuration")
+			}
+			configRes = append(configRes, r)
+		case "cha":
+			extra := []string{}
+			bk := map[string]bool{}
+			for _, k := range base.Keys {
+				bk[k] = true
+			}
+			for _, k := range r.Keys {
+				if !bk[k] {
+					extra = append(extra, k)
+				}
+			}
+			r.Note = fmt.Sprintf("cha-only alarms (need review, do not fail the check): %d", len(extra))
+			r.Keys = extra
+			configRes = append(configRes, r)
+		case "witness":
+			switch {
+			case r.Status == "patch-does-not-apply":
+				skipped++
+				r.Note = "patch no longer applies to this tree (skipped)"
+			case r.Status != "ok":
+				skipped++
+				r.Note = "mutant does not type-check / load (skipped)"
+			default:
+				expected++
+				if why, miss := expectedMiss[j.name]; miss {
+					expected--
+					r.Note = "expected miss: " + why
+				} else if r.Violations > 0 {
+					fired++
+				} else {
+					r.Note = "NOT DETECTED"
+				}
+			}
+			witnessRes = append(witnessRes, r)
+		}
+	}
+	out["witnesses_fired"] = fired
+	out["witnesses_expected"] = expected
+	out["witnesses_skipped"] = skipped
+	out["witness_results"] = witnessRes
+	out["configuration_variants"] = configRes
+	fmt.Printf("[%s] thorough: witnesses fired %d/%d (skipped %d); variants: %d\n", prop, fired, expected, skipped, len(configRes))
+	for _, w := range witnessRes {
+		fmt.Printf("[%s]   witness %-28s status=%s violations=%d %s %s\n", prop, w.Name, w.Status, w.Violations, strings.Join(w.Rules, ","), w.Note)
+	}
+	_ = os.Getenv
+	return out
 }
